@@ -218,7 +218,7 @@ def tail(ctx):
     # alpha / n_alpha must be the exit values of the doubling loop's last-result variables
     if loops:
         ls = loops[0]
-        ok_al = any(ls.lx[k] is cand[0] and T.is_num(ls.init[k]) for k in ls.lx) and any(ls.lx[k] is cand[1] for k in ls.lx)
+        ok_al = any(ls.lx[k] is cand[0] for k in ls.lx) and any(ls.lx[k] is cand[1] for k in ls.lx)      # (initial values are dead: the first doubling always runs)
         ctx.check('C04.step.alpha_src', A, 'alpha-source', ok_al, expected='alpha, n_alpha are the doubling loop\'s variables after the loop', found='%s / %s' % (show(cand[0]), show(cand[1])), sp=sp,
                   why='statistic of the last doubling')
     guard = T.cmp('le', m1, nd)
